@@ -14,7 +14,7 @@ import z3
 
 from . import seqs as SQ
 
-from .types import (MObj, TBool, TDict, TEnum, TInt, TNone, TObj, TOpt, TPy, TReal, TRec, TSeq, TSet, TStr, TTup, Ty,
+from .types import (TData, TSLICE, MObj, TBool, TDict, TEnum, TInt, TNone, TObj, TOpt, TPy, TReal, TRec, TSeq, TSet, TStr, TTup, Ty,
                     V, parse_ty)
 
 
@@ -32,8 +32,8 @@ class NeedSplit(Exception):
 class PyRaise(Exception):
     """The symbolic program raises `exc` (class name) at `node`."""
 
-    def __init__(self, exc, node, msg=None):
-        self.exc, self.node, self.msg = exc, node, msg
+    def __init__(self, exc, node, msg=None, st=None):
+        self.exc, self.node, self.msg, self.st = exc, node, msg, st
 
 
 class Closure:
@@ -132,6 +132,12 @@ class Engine:
                 k += 1
         self.npaths = 0
         self._feas_cache = {}
+        self.flat_ordinals = {}
+        fk = 0
+        for n in ast.walk(fnode):
+            if isinstance(n, (ast.ListComp, ast.GeneratorExp)) and len(n.generators) == 2:
+                self.flat_ordinals[id(n)] = fk
+                fk += 1
 
     # ------------------------------------------------------------------ utils
     def fresh(self, st, ty, hint="v"):
@@ -141,7 +147,12 @@ class Engine:
             return tuple(self.fresh(st, t, f"{hint}.{i}") for i, t in enumerate(ty.elems))
         if ty is TNone:
             return V(TNone, None)
-        v = V(ty, z3.Const(name, ty.sort()))
+        if self._comp_ctx:
+            idxs = [c[0] for c in self._comp_ctx]
+            fn = z3.Function(name, *([z3.IntSort()] * len(idxs)), ty.sort())
+            v = V(ty, fn(*idxs))
+        else:
+            v = V(ty, z3.Const(name, ty.sort()))
         inv = self.type_inv(v)
         if inv is not None:
             st.assume(inv)
@@ -189,8 +200,21 @@ class Engine:
         if exc is not None and (exc in self.c.raises or exc in self._handled):
             if st.guards:
                 raise OutOfSubset(node, "raising operation under a short-circuit guard")
+            if self._comp_ctx:
+                # inside a comprehension body evaluated at arbitrary indices: split on the universal statement
+                idxs = [c[0] for c in self._comp_ctx]
+                rng = z3.And(*[c[1] for c in self._comp_ctx])
+                outer = self._comp_ctx[0][2]
+                local = [h for h in st.pc if not any(h.eq(o) for o in outer.pc)]
+                univ = z3.ForAll(idxs, z3.Implies(z3.And(*local) if local else z3.BoolVal(True), cond))
+                if self.branch(outer, univ):
+                    st.assume(cond)
+                    return
+                bad = st.fork()
+                bad.assume(z3.Not(cond))
+                raise PyRaise(exc, node, st=bad)
             if not self.branch(st, cond):
-                raise PyRaise(exc, node)
+                raise PyRaise(exc, node, st=st)
             return
         self.oblige(st, kind, node, cond, note)
         st.assume(z3.Implies(z3.And(*st.guards), cond) if st.guards else cond)
@@ -295,6 +319,8 @@ class Engine:
             ty = base.ty
             if isinstance(ty, TRec) and attr in ty.fields:
                 return self.wrap(ty.fields[attr], ty.field_fn(attr)(base.t))
+            if isinstance(ty, TData) and attr in ty.fields:
+                return V(ty.fields[attr], ty.get(base.t, attr))
             if isinstance(ty, TOpt):
                 # attribute of an optional: must be some
                 self.require(st, "safe.none", n, ty.sort().is_some(base.t), "AttributeError")
@@ -669,7 +695,7 @@ class Engine:
                 ln = SQ.length(base.t)
                 i = idx.t
                 self.require(st, "safe.index", n, z3.And(-ln <= i, i < ln), "IndexError")
-                pos = z3.simplify(z3.If(i < 0, ln + i, i))
+                pos = i if self.spec_mode else z3.simplify(z3.If(i < 0, ln + i, i))  # clause language: mathematical indices
                 if ty is TStr:
                     return V(TStr, z3.SubString(base.t, pos, 1))
                 return self.untup_lazy(V(ty.elem, SQ.at(base.t, pos)))
@@ -820,16 +846,32 @@ class Engine:
         st.fresh_n += 1
         j = z3.Int(f"cj!{st.fresh_n}")
         inner = st.fork()
-        inner.pc = st.pc  # share (assumptions added inside are about arbitrary j: keep local)
-        inner = st.fork()
-        inner.assume(z3.And(0 <= j, j < ln))
-        self.bind_target(g.target, at(j), inner, n)
-        conds = [self.truthy(self.ev(c, inner), c) for c in g.ifs]
-        if conds:
-            inner.assume(z3.And(*conds))
+        inner.decisions = st.decisions
+        rng = z3.And(0 <= j, j < ln)
+        inner.assume(rng)
+        saved_ctx = self._comp_ctx
+        self._comp_ctx = saved_ctx + ((j, rng, st),)
+        try:
+            self.bind_target(g.target, at(j), inner, n)
+            conds = [self.truthy(self.ev(c, inner), c) for c in g.ifs]
+            if conds:
+                inner.assume(z3.And(*conds))
+            if kind == "dict":
+                kv = self.ev(n.key, inner)
+                vv = self.ev(n.value, inner)
+            else:
+                body = self.ev(n.elt, inner)
+        finally:
+            self._comp_ctx = saved_ctx
+        # facts established for the arbitrary index hold for every index: export them universally
+        base = len(st.pc)
+        local = [h for h in inner.pc if not any(h.eq(o) for o in st.pc)]
+        idxs = [c[0] for c in saved_ctx] + [j]
+        for h in local:
+            if h.eq(z3.simplify(rng)) or h.eq(rng):
+                continue
+            st.assume(z3.ForAll([j], z3.Implies(z3.And(rng, *conds), h)))
         if kind == "dict":
-            kv = self.ev(n.key, inner)
-            vv = self.ev(n.value, inner)
             kt, vt = self.type_of(kv, n), self.type_of(vv, n)
             dty = TDict(kt, vt)
             res = self.fresh(st, dty, "dcomp")
@@ -837,7 +879,7 @@ class Engine:
             keys = s.keys(res.t)
             kterm, vterm = self.coerce(kv, kt, n).t, self.coerce(vv, vt, n).t
             cond = z3.And(0 <= j, j < ln, *conds)
-            # every generated key is present and maps to the value generated at the LAST index with that key;
+            # every generated key is present and maps to the value generated at the index producing it;
             # stated for injective key expressions (obligation) which is what the code base uses
             j2 = z3.Int(f"cj2!{st.fresh_n}")
             kterm2 = z3.substitute(kterm, (j, j2))
@@ -846,20 +888,20 @@ class Engine:
             if conds:
                 raise OutOfSubset(n, "filtered dict comprehension")
             st.assume(SQ.length(keys) == ln)
-            st.assume(z3.ForAll([j], z3.Implies(cond, z3.And(SQ.at(keys, j) == kterm, z3.Select(s.val(res.t), kterm) == vterm))))
+            st.assume(z3.ForAll([j], z3.Implies(cond, z3.And(SQ.at(keys, j) == kterm, z3.Select(s.val(res.t), kterm) == vterm)),
+                                patterns=[SQ.at(keys, j)]))
             self.merge_fresh(st, inner)
             return res
-        body = self.ev(n.elt, inner)
         et = self.type_of(body, n)
         bterm = self.coerce(body, et, n).t
         res = self.fresh(st, TSeq(et), "comp")
         if not conds:
             st.assume(SQ.length(res.t) == ln)
-            st.assume(z3.ForAll([j], z3.Implies(z3.And(0 <= j, j < ln), SQ.at(res.t, j) == bterm)))
+            st.assume(z3.ForAll([j], z3.Implies(z3.And(0 <= j, j < ln), SQ.at(res.t, j) == bterm), patterns=[SQ.at(res.t, j)]))
         else:
-            # filter: membership characterisation (+ length bound, + order preservation is not encoded)
+            # filter: membership characterisation (+ length bound; order preservation is not encoded)
             x = z3.Const(f"cx!{st.fresh_n}", et.sort())
-            st.assume(z3.ForAll([x], SQ.has(res.t, x) == z3.Exists([j], z3.And(0 <= j, j < ln, *conds, bterm == x))))
+            st.assume(z3.ForAll([x], SQ.has(res.t, x) == z3.Exists([j], z3.And(0 <= j, j < ln, *conds, bterm == x)), patterns=[SQ.has(res.t, x)]))
             st.assume(SQ.length(res.t) <= ln)
             self.notes.append(f"line {n.lineno}: filtered comprehension encoded by membership + length bound only")
         self.merge_fresh(st, inner)
@@ -902,14 +944,22 @@ class Engine:
         et = self.type_of(body, n)
         bterm = self.coerce(body, et, n).t
         res = self.fresh(st, TSeq(et), "flat")
-        off = z3.Function(f"off!{tag}", z3.IntSort(), z3.IntSort())
-        st.assume(off(0) == 0)
-        st.assume(z3.ForAll([k], z3.Implies(z3.And(0 <= k, k < ln0), z3.And(off(k + 1) == off(k) + ln1, ln1 >= 0))))
+        ordinal = self.flat_ordinals.get(id(n), 0)
+        given = self.c.flat.get(ordinal)
+        if given is not None:
+            # the contract names the prefix-sum function: check that it satisfies the defining recurrence
+            off = lambda kk: given(self, it0, kk)
+            self.oblige(st, f"flat.off0[{ordinal}]", n, off(z3.IntVal(0)) == 0, "offset function starts at 0")
+            step = z3.substitute(ln1, (k, k))
+            self.oblige(inner, f"flat.offstep[{ordinal}]", n, off(k + 1) == off(k) + ln1, "offset function advances by the inner length")
+        else:
+            offn = z3.Function(f"off!{tag}", z3.IntSort(), z3.IntSort())
+            off = lambda kk: offn(kk)
+            st.assume(off(0) == 0)
+            st.assume(z3.ForAll([k], z3.Implies(z3.And(0 <= k, k < ln0), z3.And(off(k + 1) == off(k) + ln1, ln1 >= 0))))
         st.assume(SQ.length(res.t) == off(ln0))
-        st.assume(z3.ForAll([k, m], z3.Implies(z3.And(0 <= k, k < ln0, 0 <= m, m < ln1), SQ.at(res.t, off(k) + m) == bterm)))
-        self.flat_info = getattr(self, "flat_info", {})
-        self.flat_info[tag] = off
-        st.env[f"_off{len(self.flat_info) - 1}"] = ("z3fn", off)
+        st.assume(z3.ForAll([k, m], z3.Implies(z3.And(0 <= k, k < ln0, 0 <= m, m < ln1), SQ.at(res.t, off(k) + m) == bterm),
+                            patterns=[z3.MultiPattern(off(k), SQ.at(it1.t, m))] if (isinstance(it1, V) and isinstance(it1.ty, TSeq)) else []))
         self.merge_fresh(st, inner)
         return res
 
@@ -1021,6 +1071,27 @@ class Engine:
             res = k.returns(self, st, env)
         else:
             res = self.fresh(st, k.returns, f"r_{k.short}")
+        skip = set()
+        if isinstance(res, V) and not k.modifies:
+            import ast as _a
+            from .contracts import parse_clause as _pc
+
+            for ei, e in enumerate(k.ensures):
+                nd = _pc(e)
+                if (isinstance(nd, _a.Compare) and len(nd.ops) == 1 and isinstance(nd.ops[0], _a.Eq) and isinstance(nd.left, _a.Name)
+                        and nd.left.id == "result" and not any(isinstance(x, _a.Name) and x.id == "result" for x in _a.walk(nd.comparators[0]))):
+                    saved_sm = self.spec_mode
+                    self.spec_mode = True
+                    try:
+                        val = self.ev(nd.comparators[0], sub)
+                    finally:
+                        self.spec_mode = saved_sm
+                    try:
+                        res = self.coerce(val, res.ty, n)
+                        skip.add(ei)
+                    except OutOfSubset:
+                        pass
+                    break
         sub.fresh_n = st.fresh_n
         sub.env["result"] = res
         # mutated receiver: havoc attributes listed in `modifies`
@@ -1031,7 +1102,9 @@ class Engine:
                     sub.env["old_" + a] = recv.attrs[a]
                     recv.attrs[a] = self.fresh_like(st, recv.attrs[a], f"m_{a}")
                 sub.fresh_n = st.fresh_n
-        for e in k.ensures:
+        for ei, e in enumerate(k.ensures):
+            if ei in skip:
+                continue
             st.assume(self.spec_bool(e, sub, k))
         st.fresh_n = max(st.fresh_n, sub.fresh_n)
         return res
@@ -1102,13 +1175,14 @@ class Engine:
                     if self.feasible(b):
                         work.append(b)
             except PyRaise as pr:
-                results.append((cur, ("raise", pr.exc, pr.node)))
+                results.append((pr.st or cur, ("raise", pr.exc, pr.node)))
             if len(results) + len(work) > 4000:
                 raise OutOfSubset(stmt, "path explosion (>4000 paths in one statement)")
         return results
 
     _handled = frozenset()
     spec_mode = False
+    _comp_ctx = ()
 
     def _exec(self, s, st):
         m = getattr(self, "ex_" + type(s).__name__, None)
